@@ -170,3 +170,74 @@ def verify_fedavg_round(p, FA, factory, label, extra_globals=None):
   p.verify(f'{label}.server_update/init', eng, body_update)
 
 
+
+
+def verify_fedavg_client(p, FA, label, with_server_params=False, keep_opt_state=False):
+  """client_init/step/final of a FedAvg-shaped client trainer."""
+  exs = {n: p.extract(FA, f'create_train_for_each_client.<locals>.{n}')
+         for n in ('client_init', 'client_step', 'client_final')}
+  Key = KeyT
+  SPLIT0 = z3.Function('split0', Key, Key)
+  SPLIT1 = z3.Function('split1', Key, Key)
+  BatchT = z3.DeclareSort('BatchT1')
+  G = z3.Function('grad_at_c', TreeId, BatchT, Key, R)
+  copt = OptimizerV(z3.Const('client_optimizer', OptimizerT))
+  g = real_globals()
+  g['jax'].attrs['random'] = Module('jax.random', {'split': Handler(
+      lambda ctx, k, num=2: (KeyV(SPLIT0(k.term)), KeyV(SPLIT1(k.term))), 'split')})
+  g['client_optimizer'] = copt
+
+  class BatchV1(Val):
+    def __init__(self, term):
+      self.term = term
+
+  seen_sp = {}
+
+  def grad_fn(ctx, prm, *rest):
+    if with_server_params:
+      spx, batch, key = rest
+      seen_sp['sp'] = spx
+    else:
+      batch, key = rest
+    return new_tree(ctx, G(tree_tid(ctx, prm), batch.term, key.term), label='grads')
+  g['grad_fn'] = Handler(grad_fn, 'grad_fn')
+  eng = Engine(g)
+  w, pv = z3.Reals('server_params_at_c client_params_at_c')
+  wt, ptid = z3.Const('server_params', TreeId), z3.Const('client_params', TreeId)
+  k0 = z3.Const('rng', Key)
+  os_ = z3.Const('opt_state', OptStateT)
+  b = z3.Const('batch', BatchT)
+
+  def body(ctx):
+    del copt.calls[:]
+    sp = new_tree(ctx, w, 'param', 'server params', tid=wt)
+    kind, st = eng.run_function(ctx, exs['client_init'].funcv(), [sp, KeyV(k0)])
+    get = lambda d, k: ctx.engine.getitem(ctx, d, k)
+    ctx.oblige('client.init', kind == 'return' and get(st, 'params') is sp and get(st, 'rng').term.eq(k0)
+               and get(st, 'opt_state').term.eq(OPT_INIT(copt.term, wt)),
+               detail='every client starts from the server parameters, a fresh optimizer state and its own key')
+    cp = new_tree(ctx, pv, 'param', 'client params', tid=ptid)
+    items = [('params', cp), ('opt_state', OptStV(os_)), ('rng', KeyV(k0))]
+    if with_server_params:
+      items.append(('server_params', sp))
+    state = ctx.alloc(DictCell(items, owner='param', label='client_step_state'))
+    kind, nxt = eng.run_function(ctx, exs['client_step'].funcv(), [state, BatchV1(b)])
+    ctx.oblige('client.step.noraise', kind == 'return')
+    if kind == 'return':
+      gval = G(ptid, b, SPLIT1(k0))
+      ctx.oblige('client.fold', z3.And(
+          tree_val(ctx, get(nxt, 'params')) == OPT_P(copt.term, gval, os_, pv),
+          get(nxt, 'rng').term == SPLIT0(k0)) if len(copt.calls) == 1 and copt.calls[0][2] is cp else False,
+          detail='one step = optimizer(grad(params, batch, split(rng)[1]), opt_state, params); rng <- split(rng)[0]')
+      ctx.oblige('client.fold.state', isinstance(get(nxt, 'opt_state'), OptStV) and
+                 get(nxt, 'opt_state').term.eq(OPT_S(copt.term, tree_tid(ctx, copt.calls[0][0]), os_, ptid))
+                 if copt.calls else False, detail='the optimizer state is threaded through the steps')
+    if with_server_params and kind == 'return':
+      ctx.oblige('client.prox.anchor', seen_sp.get('sp') is sp and get(nxt, 'server_params') is sp,
+                 detail="the proximal term is anchored at the round's server parameters, carried unchanged")
+    kind, d = eng.run_function(ctx, exs['client_final'].funcv(), [sp, state])
+    ctx.oblige('client.delta', kind == 'return' and tree_val(ctx, d) == w - pv,
+               detail='delta = server params - locally trained params (sign)')
+  p.verify(f'{label}.create_train_for_each_client', eng, body)
+
+
